@@ -267,6 +267,27 @@ Definition ld_footer (BUFF : N) (file : list N) (buf0 : list N) : res (list N * 
 (* stage 2: size arithmetic (U32), read the first chunk of the frame, check the skippable header.
    Result: the state at the head of the entry loop *)
 Definition ld_header (BUFF : N) (file : list N) (buf : list N) (fl : bool) (numFrames : N) : res ldst :=
+  (* fix 56d8861: same limit as the writer; the U32 size arithmetic below cannot wrap then.  Before it a footer claiming
+     k + m * 2^29 frames wrapped onto the size of a k-entry table and was accepted ([ld_header_old], witness only) *)
+  if MAXFRAMES <? numFrames then Err sk_E_corruption_detected else
+  let tableSize := w32 (spe fl * numFrames) in
+  let frameSize := w32 (tableSize + FOOTER + SKIPHDR) in
+  let remaining := sub32 frameSize FOOTER in
+  let toRead := N.min remaining BUFF in
+  match src_seek_end file frameSize with
+  | None => Err sk_E_seekableIO
+  | Some fp =>
+  match src_read file fp toRead with
+  | None => Err sk_E_seekableIO
+  | Some (data, fp') =>
+  let buf := buf_store buf 0 data in
+  if negb (rd32 buf =? SKIPMAGIC) then Err sk_E_prefix_unknown else
+  if negb (w32 (rd32 (skipN buf 4) + SKIPHDR) =? frameSize) then Err sk_E_prefix_unknown else
+  Ok (mkL buf 8 (skipN buf 8) (sub32 remaining toRead) fp' 0 0 0 [])
+  end end.
+
+(* the size arithmetic and header checks as they were before fix 56d8861 (no limit on numFrames): refutation witness only *)
+Definition ld_header_old (BUFF : N) (file : list N) (buf : list N) (fl : bool) (numFrames : N) : res ldst :=
   let tableSize := w32 (spe fl * numFrames) in
   let frameSize := w32 (tableSize + FOOTER + SKIPHDR) in
   let remaining := sub32 frameSize FOOTER in
